@@ -1,5 +1,7 @@
 import Afkak.Monitor.C18
 import AfkakProofs.Partitioner
+import AfkakProofs.MurmurGen
+import AfkakProofs.Partitioner.Listing
 /-!
 # C18 — Partitioners are deterministic, in range, Java-compatible and fair
 Property theorems only; helper lemmas live in `AfkakProofs/`.
@@ -11,6 +13,20 @@ open Afkak.Partitioner Afkak.Murmur Afkak.Monitor.C18
 theorem C18_murmur_java (key : List UInt8) (h : key.length < 2^32) :
     pureMurmur2 key = (murmur2Java key).toNat :=
   pureMurmur2_eq_java key h
+
+/-- The model term REGENERATED on every run from the AST of `afkak/partitioner.py: pure_murmur2`
+    (`Afkak.Consts.genPureMurmur2`, emitted by `harness/lib/pure_translate.py`; `none` = IndexError)
+    equals the hand-written model for every byte string and every seed: the function as written
+    never raises IndexError and computes `pureMurmur2`.  A change of the source function changes the
+    generated term and breaks this obligation (or the extractor) unless it is semantically void. -/
+theorem C18_generated_murmur_eq_model (bs : List UInt8) (seed : Nat) :
+    Afkak.Consts.genPureMurmur2 bs seed = some (pureMurmur2 bs seed) :=
+  gen_eq bs seed
+
+/-- Hence the source-derived term, at the source's default seed, computes the Java client's murmur2. -/
+theorem C18_generated_murmur_java (key : List UInt8) (h : key.length < 2^32) :
+    Afkak.Consts.genPureMurmur2 key Afkak.Consts.murmurSeed = some (murmur2Java key).toNat := by
+  rw [C18_generated_murmur_eq_model, ← C18_murmur_java key h]
 
 /-- The hashed partitioner's result is always a member of the supplied non-empty list. -/
 theorem C18_in_range (key : List UInt8) (ps : List Int) (h : ps ≠ []) :
@@ -162,10 +178,60 @@ example : (murmur2Java "The rain in Spain falls mainly on the plain.".toUTF8.toL
 example : (murmur2Java [236, 138, 172, 238, 134, 136, 235, 147, 162, 232, 138, 172, 238, 162, 128]).toNat = 3978338664 := by decide +kernel
 example : (murmur2Java "lasquinceletras".toUTF8.toList).toNat = 4030895744 := by decide +kernel
 
+/-- Cross-layer (client cache -> producer -> partitioner).  A metadata entry that lists the partitions
+    `0 … n-1` of a topic in ANY order leaves, as `topic_partitions[topic]` (what `_next_partition` hands to
+    the partitioner), an ascending list over which the hashed partitioner picks the Java client's
+    `toPositive(murmur2(key)) % n`: the broker's listing order cannot move a key. -/
+theorem C18_listing_order_irrelevant (c : Afkak.ClientCache.Cache) (tm : Afkak.ClientCache.TopicMeta) (n : Nat)
+    (key : List UInt8) (hk : key.length < 2^32) (hn : n ≠ 0) (h : (tm.parts.map (·.part)).Perm (ids n)) :
+    ∃ ps, Afkak.ClientCache.get? tm.name (Afkak.ClientCache.mergeTopic c tm).topicParts = some ps ∧
+      ps.Pairwise (· ≤ ·) ∧ hashed key ps = some (Int.ofNat (javaIndex key n)) ∧
+      hashOk key ps (Int.ofNat (javaIndex key n)) = true := by
+  have hne : tm.parts ≠ [] := by
+    intro h0
+    rw [h0] at h
+    have := h.length_eq
+    simp [ids_length] at this
+    exact hn this.symm
+  have hnd : (tm.parts.map (·.part)).Nodup := h.nodup_iff.mpr (ids_nodup n)
+  refine ⟨sortInts (tm.parts.map (·.part)), Afkak.ClientCache.mergeTopic_topicParts c tm hne hnd, sortInts_sorted _,
+    hashed_listing_java key _ n hk hn h, ?_⟩
+  rw [sortInts_listing h]
+  have hi : javaIndex key n < n := Nat.mod_lt _ (Nat.pos_of_ne_zero hn)
+  simp [hashOk, ids_length, ids_getElem? n _ hi, hn]
+
+/-- ... and the round-robin partitioner, from any reachable state, chooses each of the `n` partitions exactly
+    `k` times in `k·n` selections over that list, whatever the listing order was. -/
+theorem C18_listing_rr_fair (c : Afkak.ClientCache.Cache) (tm : Afkak.ClientCache.TopicMeta) (n : Nat) (hn : n ≠ 0)
+    (h : (tm.parts.map (·.part)).Perm (ids n)) (st : RR) (hw : WF st) (start : Option Nat) (k : Nat) :
+    ∃ ps picks st', Afkak.ClientCache.get? tm.name (Afkak.ClientCache.mergeTopic c tm).topicParts = some ps ∧
+      rrPicks st ps start (k * n) = some (picks, st') ∧ ∀ i, i < n → picks.count (Int.ofNat i) = k := by
+  have hne : tm.parts ≠ [] := by
+    intro h0
+    rw [h0] at h
+    have := h.length_eq
+    simp [ids_length] at this
+    exact hn this.symm
+  have hnd : (tm.parts.map (·.part)).Nodup := h.nodup_iff.mpr (ids_nodup n)
+  have hps := Afkak.ClientCache.mergeTopic_topicParts c tm hne hnd
+  rw [sortInts_listing h] at hps
+  have hne' : ids n ≠ [] := by
+    intro h0; have := ids_length n; rw [h0] at this; exact hn this.symm
+  obtain ⟨picks, st', hp, hc⟩ := C18_rr_fair_nodup st hw (ids n) (ids_sorted n) hne' (ids_nodup n) start k
+  rw [ids_length] at hp
+  exact ⟨ids n, picks, st', hps, hp, fun i hi => hc _ (mem_ids.mpr ⟨i, hi, rfl⟩)⟩
+
+/-! Non-vacuity: a listing out of order. -/
+example : (([⟨0, 2, 1⟩, ⟨0, 0, 1⟩, ⟨5, 3, -1⟩, ⟨0, 1, 2⟩] : List Afkak.ClientCache.PartMeta).map (·.part)).Perm (ids 4) := by decide
+example : Afkak.ClientCache.get? "t" (Afkak.ClientCache.mergeTopic {} ⟨"t", 0, [⟨0, 2, 1⟩, ⟨0, 0, 1⟩, ⟨5, 3, -1⟩, ⟨0, 1, 2⟩]⟩).topicParts
+    = some [0, 1, 2, 3] := by decide
+
 end Afkak.Props.C18
 
 /- OBLIGATIONS
 C18_murmur_java
+C18_generated_murmur_eq_model
+C18_generated_murmur_java
 C18_in_range
 C18_java_colocated
 C18_rr_fair
@@ -177,4 +243,6 @@ C18_producer_wf
 C18_text_bytes_agree
 C18_depends_only_on_bytes_and_list
 C18_key_java_colocated
+C18_listing_order_irrelevant
+C18_listing_rr_fair
 -/
